@@ -246,6 +246,31 @@ def scope_predicates(ctx):
     run(ctx, W, 'a rescan / balance / selection for one network or account reads or rewrites the rows of the wallet default: outputs of the other network are flagged spent and never restored', 35)
 
 
+@PROP.obligation('C08.groupby-sorted', canaries=[
+    mut.replace_expr(W, 'Wallet._balance_update', 'groupby(sorted(key_balance_list, key=grouper), grouper)', 'groupby(key_balance_list, grouper)', 'per-account totals grouped without sorting', nth=0),
+    mut.replace_expr(W, 'Wallet._balance_update', 'groupby(sorted(key_values, key=grouper), grouper)', 'groupby(sorted(key_values, key=itemgetter("id")), grouper)', 'per-key totals sorted by another key than they are grouped by'),
+])
+def groupby_sorted(ctx):
+    """itertools.groupby only merges ADJACENT items: every groupby(X, key) in wallets.py (the per-key and the per-network/account totals
+    of _balance_update) receives X = sorted(..., key=<the same key expression>). Grouping an unsorted list yields one group per run, and
+    the later group of an account overwrites the earlier one in Wallet._balances."""
+    m = ctx.repo.mod(W)
+    n = 0
+    for q, f in sorted(m.functions.items()):
+        for c in ast.walk(f):
+            if not (isinstance(c, ast.Call) and norm(c.func) in ('groupby', 'itertools.groupby') and c.args):
+                continue
+            n += 1
+            key = c.args[1] if len(c.args) > 1 else next((k.value for k in c.keywords if k.arg == 'key'), None)
+            src = c.args[0]
+            ok = isinstance(src, ast.Call) and norm(src.func) == 'sorted' and key is not None and any(k.arg == 'key' and norm(k.value) == norm(key) for k in src.keywords)
+            ctx.saw('%s: groupby(%s, %s)' % (q, norm(src)[:60], norm(key) if key is not None else None))
+            if not ok:
+                ctx.violate('%s:%s' % (W, q), '`%s` groups a sequence that is not sorted by the grouping key' % norm(c)[:100], c,
+                            'funded keys of two accounts created alternately: the account total only counts the last run of keys - balance() differs from the sum of the unspent outputs')
+    ctx.floor(n, 2, 'groupby calls')
+
+
 @PROP.obligation('C08.balance-reset', canaries=[
     mut.replace_stmt(W, 'Wallet._balance_update', "b['balance'] = 0", 'pass', 'stale totals survive when nothing is unspent'),
 ])
